@@ -836,7 +836,9 @@ static json gen_mismatch() {
   return c;
 }
 
-static Result mismatch_body(const json &c) {
+// phase 0: control file (all frames match); phase 1: the mismatching file.  Separate children, because the DL_POLY
+// writer writes its file header only for the first frame the PROCESS writes.
+static Result mismatch_body(const json &c, int phase) {
   plugins();
   Result r;
   const std::string fname = c.at("fmt");
@@ -846,8 +848,13 @@ static Result mismatch_body(const json &c) {
   const std::vector<double> X = c.at("x").get<std::vector<double>>();
   const int nmax = std::max(n, m);
   const double edge = c.at("edge");
-  r.cls(fname);
-  r.cls(m > n ? "frame-has-more-atoms" : "frame-has-fewer-atoms");
+  if (phase == 1) {
+    r.cls(fname);
+    r.cls(m > n ? "frame-has-more-atoms" : "frame-has-fewer-atoms");
+    r.cls(bad == 0 ? "first-frame" : "later-frame");
+    r.cls(own ? "own-writer" : "votca-writer");
+    r.nontrivial = true;
+  }
   r.cls(bad == 0 ? "first-frame" : "later-frame");
   r.cls(own ? "own-writer" : "votca-writer");
   r.nontrivial = true;
@@ -897,6 +904,7 @@ static Result mismatch_body(const json &c) {
 
   const std::string good = scratch() + "/good." + fname, badf = scratch() + "/bad." + fname;
   // ---- control: all frames have n atoms -> must be readable with the n-bead topology
+  if (phase == 0) {
   stage("control-file");
   try {
     write_file(good, n);
@@ -921,6 +929,8 @@ static Result mismatch_body(const json &c) {
     // the matching file is not readable: that is the round-trip defect of this format, reported by its own sub
     r.discard = true;
     return r;
+  }
+  return r;
   }
   // ---- the mismatching file
   stage("write-mismatching-file");
@@ -977,11 +987,20 @@ static Result run_mismatch(const json &c) {
   // exception; the missing or late check is the root cause, so it gets the reader's mismatch key
   std::string crash_key = RN + "/natoms-mismatch-accepted";
   if (fname == "pdb") crash_key = "PDBReader/natoms-mismatch-overrun";
-  Result r = in_child([&] { return mismatch_body(c); }, [&](const std::string &stg, const std::string &) -> std::string {
+  auto keyf = [&](const std::string &stg, const std::string &) -> std::string {
     return stg == "read-mismatching-file" ? crash_key : RN + "/crash-in-" + stg;
-  });
+  };
+  Result r0 = in_child([&] { return mismatch_body(c, 0); }, keyf);
   unlink((scratch() + "/good." + fname).c_str());
+  if (r0.discard) return r0;
+  if (!r0.ok) {
+    // a crash while reading the matching control file is the round-trip defect of that format, reported by its own sub
+    if (r0.key.find("/crash-in-") != std::string::npos) r0 = Result(), r0.discard = true;
+    return r0;
+  }
+  Result r = in_child([&] { return mismatch_body(c, 1); }, keyf);
   unlink((scratch() + "/bad." + fname).c_str());
+  for (auto &cl : r0.classes) r.cls(cl);
   return r;
 }
 
